@@ -47,6 +47,8 @@ const EDGE_JSON: &[(&str, &str)] = &[
     ("dateTime", "\"2021-06-07T23:59:60Z\""), ("dateTime", "\"2021-06-07T12:00:00+14:00\""), ("dateTime", "\"2021-06-07T12:00:00-12:00\""), ("dateTime", "\"2021-06-07T12:00:00+05:45\""), ("dateTime", "\"2021-06-07T12:00:00+24:00\""),
     ("dateTime", "\"2021-03-14T02:30:00-05:00\""), ("dateTime", "\"2021-11-07T01:30:00-04:00\""), ("dateTime", "\"2021-11-07T01:30:00-05:00\""), ("dateTime", "\"1883-11-18T12:00:00-05:00\""), ("dateTime", "\"2021-06-07T12:00:00.123456789Z\""),
     ("dateTime", "\"2021-06-07T12:00:00\""), ("dateTime", "\"2021-06-07 12:00:00Z\""), ("dateTime", "\"2021-06-07T12:00:00-00:00\""), ("dateTime", "\"2021-06-07T12:00:00+01:00\""),
+    ("number", "255"), ("number", "256"), ("number", "65536"), ("number", "2147483647"), ("number", "2147483648"), ("number", "-2147483649"), ("number", "4294967296"), ("number", "9007199254740992"), ("number", "9007199254740994.0"),
+    ("number", "9223372036854775807"), ("number", "9223372036854775808"), ("number", "-9223372036854775808"), ("number", "1.7e18"), ("number", "18446744073709551615"), ("number", "0.1"), ("number", "1E5"), ("number", "-0.0"),
     ("number", "1e308"), ("number", "1.7976931348623157e308"), ("number", "4.9e-324"), ("number", "1e-400"), ("number", "\"INF\""), ("number", "\"-INF\""), ("number", "\"NaN\""), ("number", "\"1\""), ("number", "18446744073709551616"), ("number", "-9223372036854775809"),
     ("coord", "1"), ("xstr", "\"v\""), ("uri", "\"\""), ("symbol", "\"\""), ("ref", "\"\""), ("ref", "\"a b\""), ("symbol", "\"a b\""),
 ];
